@@ -2,7 +2,7 @@
    every slot range taken from a source master ends up in exactly one pending migration, nothing is left in the
    accumulator and - by a counting argument over the numbers of slots - no source still holds a slot when its stable
    list is dropped. *)
-From UM Require Import Base.BytesDef Model.Ranges Model.Broker Proofs.BrokerBase Proofs.BrokerPartRanges Proofs.BrokerPartDefs Proofs.BrokerPartMigrateBase.
+From UM Require Import Base.BytesDef Model.Ranges Model.Broker Proofs.BrokerBase Proofs.BrokerPartRanges Proofs.BrokerPartDefs Proofs.BrokerPartMigrateBase Proofs.BrokerPartMigrateSum.
 From Coq Require Import ZifyBool ZifyNat ZifyN Permutation.
 
 Ltac msplit := repeat match goal with |- _ /\ _ => split end.
@@ -198,4 +198,217 @@ Proof.
     + right. cbn [a_dst a_num]. msplit; lia.
 Qed.
 
+
+Lemma phi_n acc n : phi acc n = (phi acc 0 + Z.of_N n)%Z.
+Proof. unfold phi. lia. Qed.
+
+(* ---------- one part (master) of a source chunk ---------- *)
+Hypothesis HsumF : sumF dmn = SLOT_NUM.
+
+Definition kconst : Z := (Z.of_N SLOT_NUM - Z.of_N (sumE dmn))%Z.
+
+Definition down_part (idx : nat) (part : bool) (c : chunk) (acc : macc) : outcome (chunk * macc) :=
+  match ck_stable c part with
+  | None => Done (c, acc)
+  | Some rl =>
+    match scale_down_loop (loop_fuel rl dmn) epoch avg rem dmn ex idx part rl acc with
+    | Done (_, acc') => Done (set_stable c part None, acc')
+    | Fail e => Fail e
+    | Panic => Panic
+    end
+  end.
+
+Lemma scale_down_chunks_cons idx c rest acc :
+  scale_down_chunks epoch avg rem dmn ex idx (c :: rest) acc =
+  match down_part idx false c acc with
+  | Done (c1, acc1) =>
+    match down_part idx true c1 acc1 with
+    | Done (c2, acc2) =>
+      match scale_down_chunks epoch avg rem dmn ex (S idx) rest acc2 with
+      | Done (rest', acc3) => Done (c2 :: rest', acc3)
+      | Fail e => Fail e
+      | Panic => Panic
+      end
+    | Fail e => Fail e
+    | Panic => Panic
+    end
+  | Fail e => Fail e
+  | Panic => Panic
+  end.
+Proof. reflexivity. Qed.
+
+Lemma down_part_ok idx part c acc c' acc' (others : N) :
+  down_part idx part c acc = Done (c', acc') ->
+  Forall wf_range (opt_ranges (ck_stable c part)) -> a_cur acc = [] ->
+  Forall wf_range (mig_ranges (a_migs acc)) -> migs_nonempty (a_migs acc) ->
+  (forall s, (cnt s (opt_ranges (ck_stable c part)) + cnt s (mig_ranges (a_migs acc)) <= 1)%nat) ->
+  numinv acc ->
+  (phi acc (slots_total (opt_ranges (ck_stable c part))) + Z.of_N others = kconst)%Z ->
+  ck_stable c' part = None /\ ck_stable c' (negb part) = ck_stable c (negb part) /\
+  ck_mig0 c' = ck_mig0 c /\ ck_mig1 c' = ck_mig1 c /\
+  Forall wf_range (mig_ranges (a_migs acc')) /\ migs_nonempty (a_migs acc') /\ a_cur acc' = [] /\ numinv acc' /\
+  (forall s, cnt s (mig_ranges (a_migs acc')) = (cnt s (opt_ranges (ck_stable c part)) + cnt s (mig_ranges (a_migs acc)))%nat) /\
+  (phi acc' 0 + Z.of_N others = kconst)%Z.
+Proof.
+  unfold down_part. intros H Hwrl Hcur Hwm Hne Hle Hnum Hphi.
+  destruct (ck_stable c part) as [rl|] eqn:Es; cbn [opt_ranges] in *.
+  - destruct (scale_down_loop (loop_fuel rl dmn) epoch avg rem dmn ex idx part rl acc) as [[rl' acc1]|err|] eqn:El;
+      try discriminate.
+    inversion H; subst c' acc1. clear H.
+    apply scale_down_loop_ok in El; auto.
+    + destruct El as (H1 & H2 & H3 & H4 & H5 & H6 & H7 & H8).
+      assert (Hz : slots_total rl' = 0).
+      { destruct H8 as [H8|H8]; [|exact H8].
+        unfold phi in H7, Hphi. rewrite H8, HsumF in H7. unfold kconst in Hphi. lia. }
+      apply slots_total_zero_nil in Hz. subst rl'.
+      msplit; auto.
+      * apply set_stable_same.
+      * apply set_stable_other.
+      * apply set_stable_mig0.
+      * apply set_stable_mig1.
+      * intros s. specialize (H4 s). unfold tot in H4. rewrite H5, Hcur, !cnt_nil in H4. lia.
+      * change (slots_total []) with 0 in H7. rewrite H7. exact Hphi.
+    + rewrite Hcur. constructor.
+    + intros s. unfold tot. rewrite Hcur, cnt_nil. specialize (Hle s). lia.
+    + left. exact Hcur.
+  - inversion H; subst c' acc'. clear H.
+    msplit; auto.
+Qed.
+
+Lemma chunk_stable_parts c : chunk_stable c = opt_ranges (ck_stable c false) ++ opt_ranges (ck_stable c true).
+Proof. reflexivity. Qed.
+
+Lemma scale_down_chunks_ok : forall chunks idx acc chunks' acc',
+  scale_down_chunks epoch avg rem dmn ex idx chunks acc = Done (chunks', acc') ->
+  no_migs chunks -> Forall wf_range (stable_ranges chunks) ->
+  Forall wf_range (mig_ranges (a_migs acc)) -> migs_nonempty (a_migs acc) -> a_cur acc = [] ->
+  (forall s, (cnt s (stable_ranges chunks) + cnt s (mig_ranges (a_migs acc)) <= 1)%nat) ->
+  numinv acc ->
+  phi acc (slots_total (stable_ranges chunks)) = kconst ->
+  length chunks' = length chunks /\ no_migs chunks' /\ stable_ranges chunks' = [] /\
+  Forall wf_range (mig_ranges (a_migs acc')) /\ migs_nonempty (a_migs acc') /\ a_cur acc' = [] /\ numinv acc' /\
+  (forall s, cnt s (mig_ranges (a_migs acc')) = (cnt s (stable_ranges chunks) + cnt s (mig_ranges (a_migs acc)))%nat) /\
+  phi acc' 0 = kconst.
+Proof.
+  induction chunks as [|c rest IH]; intros idx acc chunks' acc' H Hnm Hws Hwm Hne Hcur Hle Hnum Hphi.
+  - cbn [scale_down_chunks] in H. inversion H; subst chunks' acc'. clear H.
+    msplit; auto.
+  - rewrite scale_down_chunks_cons in H.
+    destruct (down_part idx false c acc) as [[c1 acc1]|err|] eqn:E0; try discriminate.
+    destruct (down_part idx true c1 acc1) as [[c2 acc2]|err|] eqn:E1; try discriminate.
+    destruct (scale_down_chunks epoch avg rem dmn ex (S idx) rest acc2) as [[rest' acc3]|err|] eqn:E2; try discriminate.
+    inversion H; subst chunks' acc3. clear H.
+    apply no_migs_cons in Hnm. destruct Hnm as [[Hm0 Hm1] Hnmr].
+    change (stable_ranges (c :: rest)) with (chunk_stable c ++ stable_ranges rest) in *.
+    rewrite chunk_stable_parts in *.
+    apply Forall_app in Hws. destruct Hws as [Hwc Hwr]. apply Forall_app in Hwc. destruct Hwc as [Hw0 Hw1].
+    rewrite !slots_total_app in Hphi.
+    apply (down_part_ok idx false c acc c1 acc1
+             (slots_total (opt_ranges (ck_stable c true)) + slots_total (stable_ranges rest))) in E0; auto.
+    2:{ intros s. specialize (Hle s). rewrite !cnt_app in Hle. lia. }
+    2:{ rewrite phi_n in Hphi. rewrite phi_n. lia. }
+    destruct E0 as (A1 & A2 & A3 & A4 & A5 & A6 & A7 & A8 & A9 & A10). cbn [negb] in A2.
+    apply (down_part_ok idx true c1 acc1 c2 acc2 (slots_total (stable_ranges rest))) in E1; auto.
+    2:{ rewrite A2. exact Hw1. }
+    2:{ intros s. specialize (Hle s). rewrite !cnt_app in Hle. rewrite A2, A9. lia. }
+    2:{ rewrite A2. rewrite phi_n. lia. }
+    destruct E1 as (B1 & B2 & B3 & B4 & B5 & B6 & B7 & B8 & B9 & B10). cbn [negb] in B2.
+    apply IH in E2; auto.
+    2:{ intros s. specialize (Hle s). rewrite !cnt_app in Hle. rewrite B9, A2, A9. lia. }
+    2:{ rewrite phi_n. lia. }
+    destruct E2 as (C1 & C2 & C3 & C4 & C5 & C6 & C7 & C8 & C9).
+    msplit; auto.
+    + cbn [length]. lia.
+    + apply no_migs_cons. split; [|exact C2]. rewrite B3, B4, A3, A4. auto.
+    + change (stable_ranges (c2 :: rest')) with (chunk_stable c2 ++ stable_ranges rest').
+      rewrite C3, chunk_stable_parts, B1, B2, A1. reflexivity.
+    + intros s. rewrite C8, B9, A2, A9, !cnt_app. lia.
+Qed.
+
 End Down.
+
+(* ---------- the whole remove phase ---------- *)
+Ltac Zify.zify_post_hook ::= Z.div_mod_to_equations.
+
+Lemma sumF_all dmn : 0 < dmn ->
+  sumF (SLOT_NUM / dmn) (SLOT_NUM - SLOT_NUM / dmn * dmn) dmn = SLOT_NUM.
+Proof. intros H. unfold sumF. generalize SLOT_NUM. intros M. lia. Qed.
+
+Lemma stable_ranges_app a b : stable_ranges (a ++ b) = stable_ranges a ++ stable_ranges b.
+Proof. unfold stable_ranges. apply flat_map_app. Qed.
+
+Lemma mig_ranges_rev_perm migs : Permutation (mig_ranges (rev migs)) (mig_ranges migs).
+Proof. unfold mig_ranges. apply Permutation_flat_map. apply Permutation_sym, Permutation_rev. Qed.
+
+Lemma existing_nums_sum : forall chunks ex, existing_nums chunks = Some ex ->
+  lsum ex = slots_total (stable_ranges chunks) /\ length ex = (2 * length chunks)%nat.
+Proof.
+  induction chunks as [|c rest IH]; intros ex H; cbn [existing_nums] in H.
+  - inversion H. split; reflexivity.
+  - destruct (match ck_stable0 c with Some rl => slots_num rl | None => Some 0 end) as [a|] eqn:Ea; [|discriminate].
+    destruct (match ck_stable1 c with Some rl => slots_num rl | None => Some 0 end) as [b|] eqn:Eb; [|discriminate].
+    destruct (existing_nums rest) as [r|] eqn:Er; [|discriminate].
+    inversion H; subst ex. clear H. destruct (IH r eq_refl) as [IH1 IH2].
+    assert (Ha : a = slots_total (opt_ranges (ck_stable0 c))).
+    { destruct (ck_stable0 c) as [rl|]; cbn [opt_ranges].
+      - apply slots_num_some_wf in Ea. tauto.
+      - inversion Ea. reflexivity. }
+    assert (Hb : b = slots_total (opt_ranges (ck_stable1 c))).
+    { destruct (ck_stable1 c) as [rl|]; cbn [opt_ranges].
+      - apply slots_num_some_wf in Eb. tauto.
+      - inversion Eb. reflexivity. }
+    split.
+    + change (stable_ranges (c :: rest)) with (chunk_stable c ++ stable_ranges rest).
+      unfold chunk_stable. rewrite !slots_total_app.
+      change (lsum (a :: b :: r)) with (a + (b + lsum r)). lia.
+    + cbn [length]. lia.
+Qed.
+
+Lemma remove_src_down_ok : forall cl epoch k chunks migs,
+  part_inv (cl_chunks cl) -> cluster_is_migrating cl = false -> (0 < k)%nat ->
+  remove_slots_from_src_to_scale_down cl epoch k = Done (chunks, migs) -> remove_ok chunks migs.
+Proof.
+  intros cl epoch k chunks migs Hinv Hnm Hk H.
+  unfold remove_slots_from_src_to_scale_down in H.
+  set (dmn := 2 * N.of_nat k) in *.
+  set (avg := SLOT_NUM / dmn) in *.
+  set (rem := SLOT_NUM - avg * dmn) in *.
+  destruct (existing_nums (firstn k (cl_chunks cl))) as [ex|] eqn:Eex; [|discriminate].
+  destruct (scale_down_chunks epoch avg rem dmn ex k (skipn k (cl_chunks cl)) (mkAcc 0 [] 0 []))
+    as [[chunks' acc']|err|] eqn:Ech; try discriminate.
+  inversion H; subst chunks migs. clear H.
+  pose proof (not_migrating_no_migs cl Hnm) as Hno.
+  destruct (part_inv_stable _ Hinv Hno) as [Hwf Hcov].
+  pose proof (pi_size _ Hinv) as Hsize.
+  rewrite <- (firstn_skipn k (cl_chunks cl)) in Hno, Hwf, Hcov, Hsize.
+  apply no_migs_app in Hno. destruct Hno as [Hno1 Hno2].
+  rewrite stable_ranges_app in Hwf, Hcov.
+  destruct (existing_nums_sum _ _ Eex) as [Hsum Hlen].
+  assert (Hdmn : 0 < dmn) by (unfold dmn; lia).
+  assert (HsumF : sumF avg rem dmn = SLOT_NUM) by (apply sumF_all; exact Hdmn).
+  assert (HsumE : sumE ex dmn = lsum ex).
+  { unfold sumE. rewrite firstn_all2; [reflexivity|]. rewrite Hlen, firstn_length. unfold dmn. lia. }
+  apply Forall_app in Hwf as Hwf'. destruct Hwf' as [Hwf1 Hwf2].
+  apply (scale_down_chunks_ok epoch avg rem dmn ex HsumF) in Ech; cbn [a_dst a_cur a_num a_migs]; auto.
+  - destruct Ech as (C1 & C2 & C3 & C4 & C5 & C6 & C7 & C8 & C9). cbn [a_migs mig_ranges flat_map] in C8.
+    constructor.
+    + rewrite app_length, C1. rewrite app_length in Hsize. exact Hsize.
+    + apply no_migs_app. split; assumption.
+    + rewrite stable_ranges_app, C3, app_nil_r. exact Hwf1.
+    + eapply Permutation_Forall; [apply Permutation_sym, mig_ranges_rev_perm|exact C4].
+    + intros rl m Hin. apply in_rev in Hin. eapply C5. exact Hin.
+    + intros s. rewrite stable_ranges_app, C3, app_nil_r, (cnt_perm s _ _ (mig_ranges_rev_perm _)), C8, cnt_nil.
+      specialize (Hcov s). rewrite cnt_app in Hcov. lia.
+  - constructor.
+  - intros l m [].
+  - intros s. cbn [mig_ranges flat_map]. rewrite cnt_nil. specialize (Hcov s). rewrite cnt_app in Hcov.
+    unfold slot_ind in Hcov. destruct (N.ltb s SLOT_NUM); lia.
+  - left. reflexivity.
+  - unfold phi, kconst. cbn [a_dst a_num]. rewrite HsumE, Hsum.
+    assert (Htotal : slots_total (stable_ranges (firstn k (cl_chunks cl)) ++ stable_ranges (skipn k (cl_chunks cl))) = SLOT_NUM)
+      by (apply covers_total; assumption).
+    rewrite slots_total_app in Htotal.
+    assert (HF0 : sumF avg rem 0 = 0) by (unfold sumF; lia).
+    assert (HE0 : sumE ex 0 = 0) by reflexivity.
+    rewrite HF0, HE0. lia.
+Qed.
